@@ -141,7 +141,7 @@ def parse(text, order=None, own_line=None):
     m = re.fullmatch(r'Divide line ' + LN + r' by line ' + LN, s, re.I)
     if m and term is None:
         term = ('div', ('line', None, norm_line(m.group(1))), ('line', None, norm_line(m.group(2))))
-    m = re.fullmatch(r'Enter the (smaller|larger) of line ' + LN + r' or (?:line ' + LN + r'|\$' + NUM[3:] + r'(?: \(\$' + NUM[3:] + r' if married filing separately\))?)(?: here.*)?', s, re.I)
+    m = re.fullmatch(r'Enter the (smaller|larger) of line ' + LN + r' or (?:(?:line )?' + LN + r'|\$' + NUM[3:] + r'(?: \(\$' + NUM[3:] + r' if married filing separately\))?)(?: here.*)?', s, re.I)
     if m and term is None:
         a = ('line', None, norm_line(m.group(2)))
         if m.group(3):
